@@ -360,3 +360,15 @@ declare void @h() #2
 attributes #0 = { nounwind align=16 alignstack=8 }
 attributes #1 = { alignstack=4 }
 attributes #2 = { align=1 "a" }
+;;; ATOM func/named-parameters-among-numbered-ones-used-by-number
+define i32 @f(i32 %a, i32, i32) {
+  %r = sub i32 %0, %1
+  %s = sub i32 %r, %a
+  ret i32 %s
+}
+define i32 @g(i32, i32 %b, i32, i32 %d, i32) {
+  %4 = sub i32 %1, %2
+  %5 = sub i32 %4, %0
+  %6 = sub i32 %5, %b
+  ret i32 %6
+}
